@@ -773,3 +773,51 @@ mod tests {
         assert_reader_stops(reader, 1).await;
     }
 }
+
+/// Verification hooks (feature `verif`): thin, add-only wrappers that let an external
+/// harness call the private framing functions directly over an in-memory reader.
+#[cfg(feature = "verif")]
+#[allow(missing_docs, missing_debug_implementations, unreachable_pub)]
+pub mod verif_hooks {
+    use super::*;
+
+    /// `FRAME_READ_CHUNK_SIZE`
+    pub const CHUNK: usize = FRAME_READ_CHUNK_SIZE;
+
+    /// An `ActorReadHalf::External` over any reader.
+    pub struct FrameReader(ActorReadHalf);
+
+    impl FrameReader {
+        pub fn new(reader: crate::net::BoxRead) -> Self {
+            Self(ActorReadHalf::External(reader))
+        }
+
+        /// `read_network_message`
+        pub async fn read_message(
+            &mut self,
+            max_frame_size: u64,
+        ) -> tokio::io::Result<crate::protocol::NetworkMessage> {
+            read_network_message(&mut self.0, max_frame_size).await
+        }
+
+        /// `read_n_bytes`
+        pub async fn read_n(&mut self, len: usize) -> tokio::io::Result<Vec<u8>> {
+            read_n_bytes(&mut self.0, len).await
+        }
+
+        /// tokio's `read_u64` as used for the frame header
+        pub async fn read_header(&mut self) -> tokio::io::Result<u64> {
+            self.0.read_u64().await
+        }
+    }
+
+    /// `encode_network_message`
+    pub fn encode(msg: &crate::protocol::NetworkMessage, buf: &mut Vec<u8>) {
+        encode_network_message(msg, buf)
+    }
+
+    /// `checked_frame_length`
+    pub fn checked_len(length: u64, max_frame_size: u64) -> tokio::io::Result<usize> {
+        checked_frame_length(length, max_frame_size)
+    }
+}
